@@ -38,6 +38,7 @@ def bloom(ctx, cfg):
     ctx.check(ctx.and_([ctx.iff(z, ctx.and_(x, y)) for z, x, y in zip(bits_of(ctx, r), pa, pb)]), "intersection-is-and")
     if both:
         ctx.check(r.check_alt(key) is True, "intersection-reports-common-keys")
+    ctx.check(r.hashes("some key") == a.hashes("some key"), "intersection-keeps-strategy")
     n_int = ctx.sum([ctx.ite(ctx.and_(x, y), 1, 0) for x, y in zip(pa, pb)])
     n_uni = ctx.sum([ctx.ite(ctx.or_(x, y), 1, 0) for x, y in zip(pa, pb)])
     j = a.jaccard_index(b)
